@@ -21,6 +21,13 @@ pub struct GraphD {
     pub output: usize,
     #[serde(default)]
     pub annotations: Vec<GraphAnnotation>,
+    /// optional names: (step index, name); graph name
+    #[serde(default)]
+    pub node_names: Vec<(usize, String)>,
+    #[serde(default)]
+    pub graph_name: Option<String>,
+    #[serde(default)]
+    pub node_annotations: Vec<(usize, ciphercore_base::graphs::NodeAnnotation)>,
 }
 
 #[derive(Serialize, Deserialize, Clone, Debug, Default)]
@@ -118,6 +125,17 @@ impl Prog {
             }
             for a in &gd.annotations {
                 g.add_annotation(a.clone()).map_err(es)?;
+            }
+            for (i, name) in &gd.node_names {
+                let n = ns.get(*i).cloned().ok_or_else(|| "bad name index".to_string())?;
+                n.set_name(name).map_err(es)?;
+            }
+            if let Some(name) = &gd.graph_name {
+                g.set_name(name).map_err(es)?;
+            }
+            for (i, a) in &gd.node_annotations {
+                let n = ns.get(*i).cloned().ok_or_else(|| "bad annotation index".to_string())?;
+                n.add_annotation(a.clone()).map_err(es)?;
             }
             let out = ns.get(gd.output).cloned().ok_or_else(|| "bad output index".to_string())?;
             g.set_output_node(out).map_err(es)?;
